@@ -71,6 +71,10 @@ type C14Case struct {
 	// Poison: evaluations that fail (the script returns a number for the host poison.invalid) sent through the pool
 	// before the concurrent phase: a failed evaluation must leave the pool as sound as a successful one.
 	Poison int `json:"poison,omitempty"`
+	// Sloppy > 0: the script uses a construct that only exists in classic (non-strict) JavaScript, the language PAC files
+	// are written in: 1 assignment to an undeclared variable, 2 legacy octal literal, 3 this = the global object in a
+	// plain function call, 4 arguments[] aliasing a parameter, 5 a with statement. None changes the answer.
+	Sloppy int `json:"sloppy,omitempty"`
 }
 
 var (
@@ -192,6 +196,9 @@ func genC14(t *rapid.T) C14Case {
 		c.Queries = append(c.Queries, q)
 	}
 	c.Workers = rapid.SampledFrom([]int{1, 2, 4, 8, 32}).Draw(t, "workers")
+	if rapid.IntRange(0, 3).Draw(t, "sloppy") == 0 {
+		c.Sloppy = rapid.IntRange(1, 5).Draw(t, "sloppykind")
+	}
 	if rapid.IntRange(0, 2).Draw(t, "poisoned") == 0 {
 		c.Poison = rapid.IntRange(1, 6).Draw(t, "poison")
 		if c.Workers < 2 {
@@ -254,7 +261,21 @@ func (c C14Case) Script() string {
 	if c.Poison > 0 {
 		poison = "  if (host == \"poison.invalid\") { return 42; }\n"
 	}
-	return "function " + name + "(url, host) {\n" + poison + c.Tree.JS("  ") + "}\n"
+	top, pre := "", ""
+	switch c.Sloppy {
+	case 1:
+		pre = "  lastHost = host;\n  if (lastHost != host) { return \"PROXY global.invalid:1\"; }\n"
+	case 2:
+		pre = "  var oct = 010;\n  if (oct != 8) { return \"PROXY octal.invalid:1\"; }\n"
+	case 3:
+		top = "var marker = \"m\";\nfunction getMarker() { return this.marker; }\n"
+		pre = "  if (getMarker() != \"m\") { return \"PROXY this.invalid:1\"; }\n"
+	case 4:
+		pre = "  var keep = host;\n  host = \"zz\";\n  if (arguments[1] != \"zz\") { return \"PROXY arguments.invalid:1\"; }\n  host = keep;\n"
+	case 5:
+		pre = "  with ({w: 1}) { if (w != 1) { return \"PROXY with.invalid:1\"; } }\n"
+	}
+	return top + "function " + name + "(url, host) {\n" + poison + pre + c.Tree.JS("  ") + "}\n"
 }
 
 // ---------------------------------------------------------------------------
@@ -653,6 +674,9 @@ func classifyC14(c C14Case) (bool, string, []string) {
 		cls = append(cls, "entry-Ex")
 	}
 	cls = append(cls, fmt.Sprintf("workers=%d", c.Workers))
+	if c.Sloppy > 0 {
+		cls = append(cls, fmt.Sprintf("classic-javascript-construct-%d", c.Sloppy))
+	}
 	if c.Poison > 0 {
 		cls = append(cls, "failed-evaluations-before-the-concurrent-phase")
 	}
